@@ -610,7 +610,7 @@ loop:
 	r.Set("value_level_cases", len(x.space.vals))
 	r.Assume("excluded by the property: unbounded single allocations (range() asking for more than 2^20 elements, bytes(N) with N > 2^20 below the limit, bytes(2^31-1)); counted under skipped_classes")
 	r.Assume("a worker is a process with a 4 GiB address-space limit and the Go default maximum goroutine stack (1 GB): 'host dies' means this process dies")
-	r.Assume("hang verdicts rest on wall-clock limits (20 s in a batch, 60 s alone, both exceeded); host crashes need the worker to die in every one of 1+3 isolated attempts")
+	r.Assume("hang verdicts rest on time limits (20 s in a batch, then 60 s alone, both exceeded; three times as much for the deep-nesting cases) measured in the worker's effective time: wall time while the worker is not starved, CPU time received while it waits on the run queue (/proc/<pid>/task/*/schedstat); host crashes need the worker to die in every one of its isolated attempts (3 fresh workers; for a death inside a batch 1+3)")
 	r.Assume("compile-time failures (errors or panics inside Script.Compile) are outside the claim and only counted; host values breaking the Object contract (nil elements) are judged on the RunContext path like any other input")
 	r.Finish(report.Coverage{
 		States:      x.states,
